@@ -419,9 +419,15 @@ def c11_1(ctx: Ctx):
                             tv = src(gen.target)
                             filt = " and ".join(sorted(re.sub(rf"\b{re.escape(tv)}\b", "_", src(f)) for f in gen.ifs)) if isinstance(gen.target, ast.Name) else " and ".join(sorted(src(f) for f in gen.ifs))
                             # keyed by module + construct (not by function): the idiom keeps its identity when a refactoring moves it
+                            fm_key = f"{fi.mod.name}::first-match::{src(gen.iter)[:60]}::if::{filt[:90]}"
+                            # ... but a *second* site with the same construct in the module is a new finding, not the recorded one
+                            fm_seen = ctx.__dict__.setdefault("_first_match_seen", {})
+                            fm_seen[fm_key] = fm_seen.get(fm_key, 0) + 1
+                            if fm_seen[fm_key] > 1:
+                                fm_key += f"::#{fm_seen[fm_key]}"
                             ctx.fail(fi, n, f"first match over `{src(gen.iter)[:50]}` where `{filt[:70]}`",
                                      "next(...) over an unordered collection: when several elements match, which one is returned changes from run to run",
-                                     key=f"{fi.mod.name}::first-match::{src(gen.iter)[:60]}::if::{filt[:90]}")
+                                     key=fm_key)
                     elif consumer in ("min", "max", "sorted"):
                         pass  # handled at the call
                     else:
